@@ -572,7 +572,41 @@ impl<const N: usize> ZEx<N> {
                         let p2 = N != usize::MAX
                             || std::panic::catch_unwind(std::panic::AssertUnwindSafe(|| u.range((std::ops::Bound::Excluded(usize::MAX), std::ops::Bound::Unbounded)).len())).is_err();
                         let g = u.get(usize::MAX).is_none() && u.nth_back(usize::MAX).is_none() && u.range(N - 1..).len() == 1;
-                        (a, (t.0, t.1, t.2, t.3, t.4, t.5, t.6 && e && p1 && p2 && g))
+                        // a unit buffer whose few elements wrap around the end of the array: jumps on
+                        // the borrowing, owning and draining iterators of an element type without
+                        // drop glue
+                        let mk = || {
+                            let mut w: CircularBuffer<N, ()> = CircularBuffer::new();
+                            w.push_front(());
+                            w.push_front(());
+                            w.push_back(());
+                            w.push_back(());
+                            w.push_back(());
+                            w
+                        };
+                        let w = mk();
+                        let l = w.len();
+                        let j = l == N.min(5)
+                            && w.iter().nth(l - 1).is_some()
+                            && w.iter().nth(l).is_none()
+                            && w.iter().nth_back(l - 1).is_some()
+                            && w.iter().skip(l - 1).count() == 1
+                            && w.iter().rev().skip(1).count() == l - 1
+                            && mk().into_iter().nth(l - 1).is_some()
+                            && mk().into_iter().skip(l - 1).count() == 1
+                            && mk().into_iter().nth_back(l - 1).is_some()
+                            && mk().into_iter().last().is_some()
+                            && mk().into_iter().count() == l
+                            && {
+                                let mut i = mk().into_iter();
+                                i.nth(l).is_none() && i.len() == 0
+                            }
+                            && {
+                                let mut d = mk();
+                                let k = d.drain(..).nth(l - 1).is_some();
+                                k && d.is_empty()
+                            };
+                        (a, (t.0, t.1, t.2, t.3, t.4, t.5, t.6 && e && p1 && p2 && g && j))
                     });
                     if let Some((a, t)) = r {
                         if a != (true, true, true, true, true, true) || t != (true, true, true, true, true, true, true) {
@@ -651,6 +685,7 @@ impl<const N: usize> ZEx<N> {
             if c != d + self.leaked + live {
                 let own = match st.op {
                     _ if self.user_faulted => cls::USER_FAULT,
+                    Op::PushBack | Op::PushFront | Op::TryPushBack | Op::TryPushFront => cls::RET | cls::IDENT,
                     Op::FromArray | Op::CloneTo | Op::CloneFrom | Op::IntoIter | Op::ToVec => cls::CTOR,
                     Op::Drain => cls::DRAIN,
                     _ => 0,
